@@ -122,7 +122,50 @@ def perc2okta_kernel(ctx, rule='C18-R3'):
         ctx.check(not negated_any, rule, f.qname, r.node, r.loc(),
                   'the range refusal is "no element is in range" (not np.any(...)): an array with one percentage in [0, 100] '
                   'and others outside is accepted', instance='perc2okta: every element must be in range')
-        parts = k.evb(r.guard, (-K.INF, False, K.INF, False))
+        # reductions over the argument: for an array, min(val) < c says "some element is below c", max(val) > c "some
+        # element is above c". The refusal must be "some element below 0 or some element above 100": decided on a grid of
+        # (smallest, largest) element; for a scalar both reductions are the value itself (what the kernel looks at below)
+        RED_MIN = {'numpy.min', 'numpy.amin', 'numpy.nanmin', 'builtins.min'}
+        RED_MAX = {'numpy.max', 'numpy.amax', 'numpy.nanmax', 'builtins.max'}
+        reds = {}
+        for x in T.walk(r.guard):
+            if tag(x) == 'call' and tag(x[1]) == 'g' and x[1][1] in RED_MIN | RED_MAX and x[2][:1] == (var,):
+                reds[x] = 'min' if x[1][1] in RED_MIN else 'max'
+            elif tag(x) == 'mcall' and x[1] == var and x[2] in ('min', 'max') and not x[3]:
+                reds[x] = x[2]
+        guard = r.guard
+        if reds:
+            def evalb(t, env):
+                tg = tag(t)
+                if tg == 'or':
+                    return any(evalb(x, env) for x in t[1])
+                if tg == 'and':
+                    return all(evalb(x, env) for x in t[1])
+                if tg == 'not':
+                    return not evalb(t[1], env)
+                if tg == 'cmp' and t[1] in ('lt', 'le', 'eq', 'ne'):
+                    a, b = (env[x] if x in env else (x[1] if T.is_const(x) and isinstance(x[1], (int, float)) else None)
+                            for x in (t[2], t[3]))
+                    if a is None or b is None:
+                        raise AnalysisError(rule, f'range refusal of perc2okta: {T.show(t, maxlen=100)} not understood')
+                    return {'lt': a < b, 'le': a <= b, 'eq': a == b, 'ne': a != b}[t[1]]
+                raise AnalysisError(rule, f'range refusal of perc2okta: {T.show(t, maxlen=100)} not understood')
+            grid = [-5, -0.01, 0, 50, 100, 100.01, 120]
+            bad = None
+            for lo in grid:
+                for hi in grid:
+                    if lo > hi:
+                        continue
+                    got = evalb(guard, {x: (lo if kind == 'min' else hi) for x, kind in reds.items()})
+                    if got != (lo < 0 or hi > 100) and bad is None:
+                        bad = (lo, hi, got)
+            ctx.check(bad is None, rule, f.qname, r.node, r.loc(),
+                      (f'an array whose smallest element is {bad[0]} and largest {bad[1]} is '
+                       f'{"refused" if bad[2] else "accepted"}: ' if bad else '') +
+                      'every element must lie in [0, 100] (smallest < 0 or largest > 100 refuses)',
+                      instance='perc2okta: array refusal = some element out of range')
+            guard = T.subst(guard, {x: var for x in reds})
+        parts = k.evb(guard, (-K.INF, False, K.INF, False))
         want = [((-K.INF, False, F(0), False), True), ((F(0), True, F(100), True), False),
                 ((F(100), False, K.INF, False), True)]
         ctx.check(parts == want and cls == ERR, rule, f.qname, r.node, r.loc(),
